@@ -402,142 +402,4 @@ mod k {
             kani::cover!(got.is_some()); kani::cover!((len == 32) & got.is_none()); kani::cover!(len == 33);
         }
     }
-
-    // ------------------------------------------------------------------ C13 (feature batch)
-    // verify_batch for ALL inputs of batch size <= 2 (three independent slice lengths 0..=2), against the exact
-    // characterisation   Ok  <=>  lengths agree  /\  every S canonical  /\  every R decodes  /\  sum_i z_i * E_i = O
-    // with E_i = R_i + h_i*A_i - s_i*B the residual of the i-th individual verification equation, h_i = H(R_i||A_i||M_i)
-    // and z_i drawn from a transcript that absorbed exactly all h_i and then all s_i.  Model ring/group: Z/256 (exact
-    // wrapping arithmetic, so the algebraic identity is decided, not sampled); SHA-512's compression function and the
-    // merlin transcript absorb/squeeze are replaced by order-sensitive rolling functions.
-    #[cfg(feature = "batch")]
-    mod c13 {
-        use super::*;
-        use core::borrow::Borrow;
-        use core::sync::atomic::{AtomicU64, Ordering};
-        use curve25519_dalek::constants::ED25519_BASEPOINT_POINT;
-        use sha2::Sha512;
-        use subtle::Choice;
-
-        static TS: AtomicU64 = AtomicU64::new(0);       // model transcript state
-        static CTR: AtomicU64 = AtomicU64::new(0);      // number of bytes squeezed from the model rng
-        fn roll(mut h: u64, data: &[u8]) -> u64 { let mut i = 0; while i < data.len() { h = h.rotate_left(7) ^ (data[i] as u64) ^ 0x9e3779b97f4a7c15; i += 1; } h.rotate_left(11) ^ (data.len() as u64) }
-        fn m_append(_t: &mut merlin::Transcript, label: &'static [u8], message: &[u8]) {
-            let h = roll(roll(TS.load(Ordering::Relaxed), label), message); TS.store(h, Ordering::Relaxed);
-        }
-        fn zbyte(state: u64, k: u64) -> u8 { (state.rotate_left((k % 61) as u32) ^ k.wrapping_mul(0x0101010101010101)) as u8 }
-        fn m_fill(_r: &mut merlin::TranscriptRng, dest: &mut [u8]) {
-            let st = TS.load(Ordering::Relaxed); let mut c = CTR.load(Ordering::Relaxed);
-            let mut i = 0; while i < dest.len() { dest[i] = zbyte(st, c); c += 1; i += 1; }
-            CTR.store(c, Ordering::Relaxed);
-        }
-        fn m_compress512(state: &mut [u64; 8], blocks: &[GenericArray<u8, curve25519_dalek::digest::generic_array::typenum::U128>]) {
-            // position-sensitive witness of the block contents (R at 0.., A at 32.., M at 64..) without a 128-step loop
-            if blocks.len() >= 1 {
-                let b = &blocks[0];
-                state[0] = state[0].rotate_left(9) ^ (b[0] as u64) ^ ((b[31] as u64) << 8) ^ ((b[32] as u64) << 16) ^ ((b[63] as u64) << 24) ^ ((b[64] as u64) << 32) ^ ((b[65] as u64) << 40) ^ ((blocks.len() as u64) << 48);
-            }
-        }
-        // model ring Z/256 on byte 0 of the scalar encoding; model group Z/256 on the low byte of the first point tag
-        fn sv(s: &Scalar) -> u8 { s.as_bytes()[0] }
-        fn sc(v: u8) -> Scalar { let mut b = [0u8; 32]; b[0] = v; vh::scalar_raw(b) }
-        fn pv(p: &EdwardsPoint) -> u8 { vh::point_tags(p).0 as u8 }
-        fn m_wide8(input: &[u8; 64]) -> Scalar { sc(input[0] ^ input[9].rotate_left(3) ^ input[63]) }
-        fn m_canon8(bytes: [u8; 32]) -> CtOption<Scalar> { CtOption::new(vh::scalar_raw(bytes), ((bytes[31] & 0xf0 == 0) as u8).into()) }
-        fn m_smul8<'a: 'a, 'b: 'b>(a: &'a Scalar, b: &'b Scalar) -> Scalar { sc(sv(a).wrapping_mul(sv(b))) }
-        fn m_sadd8<'a: 'a, 'b: 'b>(a: &'a Scalar, b: &'b Scalar) -> Scalar { sc(sv(a).wrapping_add(sv(b))) }
-        fn m_sneg8<'a: 'a>(a: &'a Scalar) -> Scalar { sc(sv(a).wrapping_neg()) }
-        fn m_dec8(c: &CompressedEdwardsY) -> Option<EdwardsPoint> { if c.0[1] & 1 == 1 { None } else { Some(vh::point_from_tags(c.0[0] as u64, 0)) } }
-        fn m_pteq(a: &EdwardsPoint, b: &EdwardsPoint) -> Choice { ((vh::point_tags(a) == vh::point_tags(b)) as u8).into() }
-        // contract of (Vartime)MultiscalarMul::optional_multiscalar_mul: None if any point is None, else sum s_i P_i; iterators of
-        // different lengths are a caller error (the real implementation asserts)
-        fn m_omsm<I, J>(scalars: I, points: J) -> Option<EdwardsPoint>
-        where I: IntoIterator, I::Item: Borrow<Scalar>, J: IntoIterator<Item = Option<EdwardsPoint>> {
-            let mut si = scalars.into_iter(); let mut pi = points.into_iter();
-            let mut acc: u8 = 0; let mut none = false;
-            loop {
-                match (si.next(), pi.next()) {
-                    (Some(s), Some(p)) => { match p { Some(q) => { acc = acc.wrapping_add(sv(s.borrow()).wrapping_mul(pv(&q))); } None => { none = true; } } }
-                    (None, None) => break,
-                    _ => panic!("optional_multiscalar_mul called with iterators of different lengths"),
-                }
-            }
-            if none { None } else { Some(vh::point_from_tags(acc as u64, 0)) }
-        }
-        fn hram8(r: &[u8; 32], a: &[u8; 32], m: &[u8]) -> u8 {
-            let mut h = Sha512::default(); sha2::Digest::update(&mut h, r); sha2::Digest::update(&mut h, a); sha2::Digest::update(&mut h, m);
-            let o = sha2::Digest::finalize(h); let mut ob = [0u8; 64]; let mut i = 0; while i < 64 { ob[i] = o[i]; i += 1; }
-            sv(&m_wide8(&ob))
-        }
-        fn hram_bytes(r: &[u8; 32], a: &[u8; 32], m: &[u8]) -> [u8; 64] {
-            let mut h = Sha512::default(); sha2::Digest::update(&mut h, r); sha2::Digest::update(&mut h, a); sha2::Digest::update(&mut h, m);
-            let o = sha2::Digest::finalize(h); let mut ob = [0u8; 64]; let mut i = 0; while i < 64 { ob[i] = o[i]; i += 1; }
-            ob
-        }
-
-        macro_rules! batch_stubs { ($(#[$m:meta])* fn $name:ident() $body:block) => {
-            #[kani::proof]
-            #[kani::stub(merlin::Transcript::append_message, m_append)]
-            #[kani::stub(<merlin::TranscriptRng as rand_core::RngCore>::fill_bytes, m_fill)]
-            #[kani::stub(sha2::sha512::compress512, m_compress512)]
-            #[kani::stub(CompressedEdwardsY::decompress, m_dec8)]
-            #[kani::stub(Scalar::from_bytes_mod_order_wide, m_wide8)]
-            #[kani::stub(Scalar::from_canonical_bytes, m_canon8)]
-            #[kani::stub(<&Scalar as core::ops::Mul<&Scalar>>::mul, m_smul8)]
-            #[kani::stub(<&Scalar as core::ops::Add<&Scalar>>::add, m_sadd8)]
-            #[kani::stub(<&Scalar as core::ops::Neg>::neg, m_sneg8)]
-            #[kani::stub(<EdwardsPoint as subtle::ConstantTimeEq>::ct_eq, m_pteq)]
-            #[kani::stub(curve25519_dalek::backend::straus_optional_multiscalar_mul, m_omsm)]
-            #[kani::stub(zeroize::optimization_barrier, m_barrier)]
-            $(#[$m])* fn $name() $body
-        } }
-        fn m_barrier<T: ?Sized>(_v: &T) {}      // zeroize's inline-asm optimisation barrier (merlin's Strobe zeroizes on drop)
-        fn batch_case(nm: usize, ns: usize, nk: usize) {
-            let m0: [u8; 1] = kani::any(); let m1: [u8; 1] = kani::any();
-            let l0: usize = kani::any(); let l1: usize = kani::any(); kani::assume(l0 <= 1 && l1 <= 1);
-            let msgs: [&[u8]; 2] = [&m0[..l0], &m1[..l1]];
-            let sb: [[u8; 64]; 2] = kani::any();
-            let sigs = [Signature::from_bytes(&sb[0]), Signature::from_bytes(&sb[1])];
-            let kb: [[u8; 32]; 2] = kani::any();
-            kani::assume(kb[0][1] & 1 == 0 && kb[1][1] & 1 == 0);          // keys are decoded points by construction of VerifyingKey
-            let keys = [VerifyingKey::from_bytes(&kb[0]).unwrap(), VerifyingKey::from_bytes(&kb[1]).unwrap()];
-            TS.store(0, Ordering::Relaxed); CTR.store(0, Ordering::Relaxed);
-            let got = crate::batch::verify_batch(&msgs[..nm], &sigs[..ns], &keys[..nk]).is_ok();
-            let want = if nm != ns || ns != nk { false } else {
-                let n = ns;
-                let mut t: u64 = roll(roll(0, b"dom-sep"), b"ed25519 batch verification"); let mut i = 0;
-                while i < n { let (r, _s) = split(&sb[i]); t = roll(roll(t, b"hram"), &hram_bytes(&r, &kb[i], msgs[i])); i += 1; }
-                i = 0; while i < n { let (_r, s) = split(&sb[i]); t = roll(roll(t, b"sig.s"), &s); i += 1; }
-                let mut ok = true; i = 0;
-                while i < n { let (r, s) = split(&sb[i]); if s[31] & 0xf0 != 0 { ok = false; } if r[1] & 1 == 1 { ok = false; } i += 1; }
-                let b8 = pv(&ED25519_BASEPOINT_POINT);
-                let mut sum: u8 = 0; i = 0;
-                while i < n {
-                    let (r, s) = split(&sb[i]);
-                    let z = zbyte(t, 16 * i as u64);
-                    let e = r[0].wrapping_add(hram8(&r, &kb[i], msgs[i]).wrapping_mul(kb[i][0])).wrapping_sub(s[0].wrapping_mul(b8));
-                    sum = sum.wrapping_add(z.wrapping_mul(e)); i += 1;
-                }
-                ok && sum == 0
-            };
-            assert!(got == want);
-            kani::cover!(got);
-        }
-        batch_stubs! { #[kani::unwind(130)] fn c13_verify_batch_n0_is_ok() { batch_case(0, 0, 0); } }
-        batch_stubs! { #[kani::unwind(130)] fn c13_verify_batch_n1_matches_weighted_sum() { batch_case(1, 1, 1); } }
-        batch_stubs! { #[kani::unwind(130)] fn c13_verify_batch_n2_matches_weighted_sum() { batch_case(2, 2, 2); } }
-        batch_stubs! { #[kani::unwind(130)] fn c13_verify_batch_length_mismatch_is_error() {
-            let nm: usize = kani::any(); let ns: usize = kani::any(); let nk: usize = kani::any();
-            kani::assume(nm <= 2 && ns <= 2 && nk <= 2 && !(nm == ns && ns == nk));
-            let m0: [u8; 1] = kani::any(); let msgs: [&[u8]; 2] = [&m0[..], &m0[..]];
-            let sb: [[u8; 64]; 2] = kani::any();
-            let sigs = [Signature::from_bytes(&sb[0]), Signature::from_bytes(&sb[1])];
-            let kb: [u8; 32] = kani::any(); kani::assume(kb[1] & 1 == 0);
-            let k = VerifyingKey::from_bytes(&kb).unwrap(); let keys = [k, k];
-            TS.store(0, Ordering::Relaxed); CTR.store(0, Ordering::Relaxed);
-            let r = crate::batch::verify_batch(&msgs[..nm], &sigs[..ns], &keys[..nk]);
-            assert!(r.is_err());
-            kani::cover!(nk > ns); kani::cover!(nm > ns);
-        } }
-    }
 }
